@@ -1,7 +1,7 @@
 """C15 — MPSC / SPSC / relaxed-MPSC queues: each item popped once, per-producer FIFO (structural part)."""
 from core import strip, is_field, order_ge, key_str, key_mentions
 from facts import AnalysisBroken
-from rules import (check_init, nodeset, ev, Unevaluable, atom_from, reach, ret_const, is_var_load, is_full_fence, is_compiler_fence, is_param_load)
+from rules import (field_load, check_init, nodeset, ev, Unevaluable, atom_from, reach, ret_const, is_var_load, is_full_fence, is_compiler_fence, is_param_load)
 
 EXPLANATION = (
     "Decides the two-step publication skeleton: a producer terminates its node (next = NULL) before the node can be reached "
@@ -133,7 +133,7 @@ def run(ctx):
     if len(pc) != 1 or len(sub) != 1:
         bad = "shape"
     else:
-        isNP = lambda n: n.k == "ImplicitCastExpr" and n.ck == "LValueToRValue" and strip(n).k == "MemberExpr" and strip(n).field == "num_producers"
+        isNP = field_load("num_producers")
         for pn, np_ in ((0, 1), (2, 3), (7, 3), (3, 3)):
             try:
                 i = ev(f, sub[0].kids[1], atom_from([(is_param_load(f, "producer_number"), pn), (isNP, np_)]))
@@ -154,13 +154,13 @@ def run(ctx):
     if len(pops) != 1:
         bad = "shape"
     else:
-        isNP = lambda n: n.k == "ImplicitCastExpr" and n.ck == "LValueToRValue" and strip(n).k == "MemberExpr" and strip(n).field == "num_producers"
+        isNP = field_load("num_producers")
         for np_ in (1, 2, 3):
             for start in (0, 1, 5):
                 # interpret the loop with every sub-queue empty: which indices are visited before NULL is returned?
                 cnt = [start]
                 visited = []
-                isCnt = lambda n: n.k == "ImplicitCastExpr" and n.ck == "LValueToRValue" and strip(n).k == "MemberExpr" and strip(n).field == "counter"
+                isCnt = field_load("counter")
 
                 def atom(n, cnt=cnt, np_=np_):
                     if isNP(n):
